@@ -250,6 +250,8 @@ def run(ctx):
                 self.kill_at = kw.get('kill_at')      # kill from inside the k-th hook call that returns a value
                 self.bad_dirs = kw.get('bad_dirs', ())
                 self.bad_files = kw.get('bad_files', ())
+                if kw.get('kill_in_init'):
+                    self.kill()           # abort point 0: the first hook of the object's life
 
             def _ret(self, kind, base, name, value):
                 self.events.append((kind, base, name, value))
@@ -271,10 +273,10 @@ def run(ctx):
                 return self._ret('match', base, name, VALS[sum(map(ord, name)) % len(VALS)])
 
             def on_skip(self, base, name):
-                return self._ret('skip', base, name, None if len(name) % 2 else ('S', name))
+                return self._ret('skip', base, name, [None, ('S', name), '', 0, (), False, b'', 0.0][len(name) % 8])
 
             def on_error(self, base, name):
-                return self._ret('error', base, name, None if name.startswith('n') else ('E', name))
+                return self._ret('error', base, name, None if name.startswith('n') else ('' if name.startswith('q') else ('E', name)))
 
         def expected(events):
             return [v for (kind, b, nm, v) in events if kind == 'match' or v is not None]
@@ -296,6 +298,15 @@ def run(ctx):
                     ctx.counterexample('a second match() of the same object returns a different sequence', {'tree': vspec})
                 nev = len(w.events)
                 base_events = list(w.events)
+                # kill() from on_init: aborted from the start, nothing is yielded until reset()
+                evals += 1
+                w0 = Val(TV.root, '*.txt', flags=WM.RECURSIVE, kill_in_init=True, **kw)
+                st0 = (w0.is_aborted(), w0.match(), list(w0.imatch()), w0.is_aborted(), len(w0.events))
+                w0.reset()
+                after0 = w0.match()
+                if st0 != (True, [], [], True, 0) or after0 != full:
+                    ctx.counterexample('kill() inside on_init: (is_aborted, match(), imatch(), is_aborted, hook calls) = %r, expected (True, [], [], True, 0); after reset() match() %s the complete result' % (
+                        st0, 'returns' if after0 == full else 'does not return'), {'tree': vspec, 'kill_at_hook': 0, 'bad_dirs': list(bad_dirs), 'bad_files': list(bad_files)})
                 # kill from inside the k-th value-returning hook call
                 for k in range(1, nev + 1):
                     evals += 1
